@@ -180,7 +180,7 @@ def check_owned(recipe) -> list[Fail]:
             if not res["acquired"]:
                 fails.append(Fail(f"lock-not-acquirable:after-{prev.split(' ')[0]}", when + f": could not enter within {cc.TIMEOUT}s although no session is running"))
                 break
-            failing = kind not in ("read_all", "write1", "write2", "read_write1", "write_emptykey", "killed_mid_append")
+            failing = kind not in ("read_all", "write1", "write2", "read_write1", "write_emptykey", "killed_mid_append", "caught_flush_error")
             if not failing and res["exc"] is not None:
                 fails.append(Fail("good-session-raises", when + f": {res['exc']}"))
                 break
@@ -199,6 +199,12 @@ def check_owned(recipe) -> list[Fail]:
                     must[k_] = bytes.fromhex(hv_)
             elif kind == "killed_mid_append":
                 pass      # no record: the torn bytes must never show up as one
+            elif kind == "caught_flush_error":
+                for k, v in zip(keys, vals):
+                    if k in res["put_ok"]:
+                        must[k] = v
+                    else:
+                        may[k] = v
             elif kind in ("write1", "write2", "read_write1"):
                 for k, v in zip(keys, vals):
                     if k in res["put_ok"]:
@@ -246,7 +252,7 @@ def classify_owned(recipe):
     labels = [f"k={len(s)}"]
     nt = False
     for (h1, k1), (h2, k2) in zip(s, s[1:]):
-        f1 = cc.KINDS[k1] not in ("read_all", "write1", "write2", "read_write1", "write_emptykey", "killed_mid_append")
+        f1 = cc.KINDS[k1] not in ("read_all", "write1", "write2", "read_write1", "write_emptykey", "killed_mid_append", "caught_flush_error")
         if f1 and h1 != h2:
             nt = True
             labels.append("failing_then_other_handle")
@@ -258,7 +264,7 @@ def classify_owned(recipe):
             labels.append("stale_handle_writes_after_other_writer")
     for _, k in s:
         labels.append("kind=" + cc.KINDS[k])
-    if len(s) == 1 and cc.KINDS[s[0][1]] not in ("read_all", "write1", "write2", "read_write1", "write_emptykey", "killed_mid_append"):
+    if len(s) == 1 and cc.KINDS[s[0][1]] not in ("read_all", "write1", "write2", "read_write1", "write_emptykey", "killed_mid_append", "caught_flush_error"):
         nt = True   # the probe process is "another process" following the failing session
     return nt, labels
 
@@ -372,7 +378,11 @@ def check_held(recipe) -> list[Fail]:
             raise HarnessError(f"setup session failed: {res}")
         h = helper(hn)
         drop = recipe.get("during") == "drop"
-        if h.call({"op": "new", "path": path, "handles": {hn: {"ro": False, "buf": -1}, "idle": {"ro": not drop, "buf": -1, "plain": True, "keep_atexit": drop}}}) is None:
+        if recipe.get("during") == "rel_chdir":
+            # the holder names the library by a relative path, after it has used the same spelling for another library elsewhere
+            if h.call({"op": "new_rel", "path": path, "other_dir": os.path.join(d, "elsewhere"), "handles": {hn: {"ro": False, "buf": -1}}}) is None:
+                raise HarnessError("helper stalled while constructing a handle")
+        elif h.call({"op": "new", "path": path, "handles": {hn: {"ro": False, "buf": -1}, "idle": {"ro": not drop, "buf": -1, "plain": True, "keep_atexit": drop}}}) is None:
             raise HarnessError("helper stalled while constructing a handle")
         held_mode = recipe["held"]
         if drop:
@@ -400,7 +410,7 @@ def check_held(recipe) -> list[Fail]:
             if not os.path.exists(ready):
                 raise HarnessError("the short-lived process never constructed its handle")
         h.send({"op": "session_hold", "h": hn, "mode": held_mode, "key": "heldkey", "val": (b"H" * 33).hex(), "at_file": at_file, "gate_file": gate_file,
-                "during": recipe.get("during") if recipe.get("during") != "other_exits" else None, "idle": "idle"})
+                "during": recipe.get("during") if recipe.get("during") not in ("other_exits", "rel_chdir") else None, "idle": "idle"})
         # ("drop": inside its session the holder lets go of that other handle and collects garbage)
         t0 = time.time()
         while not os.path.exists(at_file) and time.time() - t0 < 30:
@@ -548,7 +558,7 @@ def enum_held(tier, shard, nshards):
             for timeouts in ([0], [1], [2], [0, 1, 2], [3]):
                 if tier == "quick" and timeouts == [3] and abuf:
                     continue
-                for during in (None, "unpickle", "deepcopy", "other_exits", "drop"):
+                for during in (None, "unpickle", "deepcopy", "other_exits", "drop", "rel_chdir"):
                     if during and timeouts != [0, 1, 2]:
                         continue
                     if i % nshards == shard:
@@ -708,7 +718,7 @@ LEGS = [
     Leg(
         "owned", check_owned, classify_owned, enumerate=enum_owned, exhaustive=True,
         shards={"quick": 16, "thorough": 32},
-        rule="ALL sequences of k<=2 (quick: 3 handles) / k<=3 (thorough: 4 handles) sessions over 18 kinds (read, write1, write2, read-an-existing-record-then-write, a record under the empty key, ANOTHER process killed in mid-append between two sessions (torn tail), fail in body by Exception / KeyboardInterrupt / SystemExit / encoder / flush-time backend write / stream write inside UKVFile.put / end_write / reader body / end_read / begin_write / begin_read); lock probed from a fresh process after every session; non-trivial = failing session followed by a session on another handle (or by the probe process), or a stale handle writing after another writer",
+        rule="ALL sequences of k<=2 (quick: 3 handles) / k<=3 (thorough: 4 handles) sessions over 19 kinds (a caught mid-session flush error on a small-buffer handle, read, write1, write2, read-an-existing-record-then-write, a record under the empty key, ANOTHER process killed in mid-append between two sessions (torn tail), fail in body by Exception / KeyboardInterrupt / SystemExit / encoder / flush-time backend write / stream write inside UKVFile.put / end_write / reader body / end_read / begin_write / begin_read); lock probed from a fresh process after every session; non-trivial = failing session followed by a session on another handle (or by the probe process), or a stale handle writing after another writer",
     ),
     Leg(
         "owned_rand", check_owned, classify_owned, strategy=strat_owned,
@@ -726,7 +736,7 @@ LEGS = [
     ),
     Leg(
         "held", check_held, lambda r: (True, [f"holder={'writer' if r['held'] == 'w' else 'reader'}", "timeouts=" + ",".join(str([0, 0.0, 0.05, 0.3][t]) for t in r["timeouts"]), f"holder_copies_an_idle_handle_inside_its_session={r.get('during')}"]), enumerate=enum_held, exhaustive=True, shards={"quick": 8, "thorough": 8},
-        rule="harness-owned overlap: a helper process sits inside a writing (or reading) session while this process asks for sessions with timeout 0, 0.0, 0.05, 0.3: every request that the holder excludes must end in TimeoutError, never inside the session - also when the holder, inside its session, unpickles / deep-copies an idle handle of the same library (no session on the copy), when a third process that had constructed a handle earlier exits normally meanwhile, or when the holder lets go of another handle whose last request had timed out; "
+        rule="harness-owned overlap: a helper process sits inside a writing (or reading) session while this process asks for sessions with timeout 0, 0.0, 0.05, 0.3: every request that the holder excludes must end in TimeoutError, never inside the session - also when the holder, inside its session, unpickles / deep-copies an idle handle of the same library (no session on the copy), when a third process that had constructed a handle earlier exits normally meanwhile, when the holder lets go of another handle whose last request had timed out, or when the holder names the library by a relative path after a chdir; "
              "after the gate opens a session proceeds and the contents are complete",
     ),
     Leg(
